@@ -16,6 +16,8 @@ pub trait Sc: Number + Signed + Copy + PartialOrd + Debug + W + 'static {
     /// magnitude as f64 (for float oracles)
     fn mag64(&self) -> f64;
     fn finite(&self) -> bool;
+    /// read-only norm view of a matrix inside a history (`Matrix<f64>` only): (output text, oracle failures)
+    fn mat_norms_view(_m: &ohsl::Matrix<Self>, _p: f64) -> Option<(String, Vec<String>)> { None }
 }
 impl Sc for Q {
     const TAG: &'static str = "q";
@@ -37,6 +39,31 @@ impl Sc for f64 {
     fn from_i(n: i64) -> f64 { n as f64 }
     fn mag64(&self) -> f64 { self.abs() }
     fn finite(&self) -> bool { self.is_finite() }
+    fn mat_norms_view(m: &ohsl::Matrix<f64>, p: f64) -> Option<(String, Vec<String>)> {
+        use crate::wire::guarded;
+        let vals = [guarded(|| m.norm_1()), guarded(|| m.norm_inf()), guarded(|| m.norm_p(p)), guarded(|| m.norm_frob()), guarded(|| m.norm_max())];
+        let (r, c) = (m.rows(), m.cols());
+        let mut fails = Vec::new();
+        // entrywise definitions through the index operator (what the matrix IS, whatever its buffer holds)
+        let ent: Vec<f64> = (0..r).flat_map(|i| (0..c).map(move |j| (i, j))).map(|(i, j)| m[(i, j)]).collect();
+        if ent.iter().all(|x| x.is_finite()) {
+            let n1 = (0..c).map(|j| (0..r).map(|i| m[(i, j)].abs()).sum::<f64>()).fold(0.0, f64::max);
+            let ni = (0..r).map(|i| (0..c).map(|j| m[(i, j)].abs()).sum::<f64>()).fold(0.0, f64::max);
+            let nm = ent.iter().map(|x| x.abs()).fold(0.0, f64::max);
+            let fr = ent.iter().map(|x| x * x).sum::<f64>().sqrt();
+            let sp: f64 = ent.iter().map(|x| x.abs().powf(p)).sum::<f64>();
+            let np = sp.powf(1.0 / p);
+            let nn = (r * c) as f64 + 4.0;
+            let close = |x: f64, y: f64| (x - y).abs() <= 4.0 * nn * f64::EPSILON * y.abs().max(f64::MIN_POSITIVE) || (x.is_nan() && y.is_nan()) || x == y;
+            if !matches!(vals[0], Ok(x) if close(x, n1)) { fails.push("history: norm_1 != max column sum of the indexed entries".to_string()); }
+            if !matches!(vals[1], Ok(x) if close(x, ni)) { fails.push("history: norm_inf != max row sum of the indexed entries".to_string()); }
+            if !matches!(vals[4], Ok(x) if x == nm) { fails.push("history: norm_max != max |a_ij| of the indexed entries".to_string()); }
+            if !matches!(vals[3], Ok(x) if close(x, fr)) { fails.push("history: norm_frob != sqrt(sum a_ij^2) of the indexed entries".to_string()); }
+            if p >= 1.0 && np.is_finite() && sp.is_finite() { if !matches!(vals[2], Ok(x) if (x - np).abs() <= 64.0 * nn * f64::EPSILON * np.max(f64::MIN_POSITIVE) || x == np) { fails.push("history: norm_p != (sum |a_ij|^p)^(1/p) of the indexed entries".to_string()); } }
+        }
+        let out: Vec<String> = vals.iter().map(|v| match v { Ok(x) => crate::wire::f64_hex(*x), Err(c) => format!("!{}", c) }).collect();
+        Some((out.join(" "), fails))
+    }
 }
 impl Sc for Cmplx {
     const TAG: &'static str = "c";
